@@ -944,14 +944,50 @@ Qed.
 (* ------------------------------------------------------------------ *)
 (* the parser used in the correspondence runs: id and flags are the octets of the datagram  *)
 
-Lemma lookup_header_ok : forall t w,
-  p_err (lookup t w) = None -> header_ok w (lookup t w) = true.
+Lemma lookup_checked : forall t w,
+  p_err (lookup t w) = None ->
+  header_ok w (lookup t w) = true /\ question_ok w (lookup t w) = true.
 Proof.
   induction t as [|[k a] t IH]; intros w H; cbn [lookup] in *.
   - cbn in H. discriminate.
   - destruct (zlist_eqb k w).
-    + destruct (header_ok w a) eqn:E; auto. cbn in H. discriminate.
+    + destruct (header_ok w a && question_ok w a) eqn:E.
+      * apply andb_true_iff in E. exact E.
+      * cbn in H. discriminate.
     + apply IH. auto.
+Qed.
+
+Lemma lookup_header_ok t w : p_err (lookup t w) = None -> header_ok w (lookup t w) = true.
+Proof. intros H. apply lookup_checked in H. tauto. Qed.
+
+Lemma qents_same_eq : forall a b, qents_same a b = true -> a = b.
+Proof.
+  induction a as [|x a IH]; destruct b as [|y b]; cbn [qents_same]; try discriminate; auto.
+  intros H. apply andb_true_iff in H. destruct H as [H Hr].
+  apply andb_true_iff in H. destruct H as [H Ht].
+  apply andb_true_iff in H. destruct H as [Hn Hc].
+  apply Z.eqb_eq in Ht, Hc. apply IH in Hr. subst b.
+  assert (En : q_name x = q_name y).
+  { clear - Hn. revert Hn. generalize (q_name x) (q_name y).
+    induction n as [|l1 m IHm]; destruct n as [|l2 n']; try discriminate; auto.
+    intros H. apply andb_true_iff in H. destruct H as [H1 H2].
+    apply zlist_eqb_eq in H1. subst. f_equal. apply IHm. exact H2. }
+  destruct x, y. cbn in *. subst. reflexivity.
+Qed.
+
+(* ... and the question section on the wire (decoded per RFC 1035, compression included) is the
+   question section acceptance was decided on *)
+Theorem udp_answer_question_on_the_wire tab q qwire where_ timeout af o sevs evs now i r wire t from rest :
+  udp (lookup tab) q qwire where_ timeout af o sevs evs now = (i, Ok (r, wire, t, from, rest)) ->
+  wire_question_section wire = Some (m_question r) /\ genuine q r.
+Proof.
+  intros H. apply udp_returns_genuine in H. destruct H as (Hg & _ & Hp & _).
+  split; auto.
+  apply from_wire_ok_wellformed in Hp. destruct Hp as (Hsh & He & Hm & _).
+  destruct (lookup_checked tab wire He) as [_ Hq]. unfold question_ok in Hq.
+  rewrite He, Hsh in Hq.
+  destruct (wire_question_section wire) as [qs|]; [|discriminate].
+  apply qents_same_eq in Hq. subst. reflexivity.
 Qed.
 
 (* for every table of datagram descriptions the harness may supply: what udp() returns starts,
